@@ -5,6 +5,7 @@ From SV Require Import Model.Peaks Spec.PeaksSpec Proof.PeaksProof Proof.PeaksTh
 From SV Require Import Model.Merging Spec.MergingSpec Proof.ReplaceMergedProof Proof.MergePeaksProof.
 From SV Require Import Model.PeakProps Spec.PeakPropsSpec Proof.PeakPropsProof.
 From SV Require Import Model.Splitting Proof.SplittingProof.
+From SV Require Import Model.SumWaveform Proof.SumWaveformProof.
 
 (* ------------------------------------------------------------------------------------------ *)
 (* symmetric_moving_average (repaired code, `just_out >= 0`) equals the defining windowed mean:
@@ -165,3 +166,61 @@ Theorem C19_split_tiles_parent_short_closing_point_refuted : exists cs,
   split_peak 100 2 12 0 1 [2; 7] = Ok (true, cs) /\ tiled 100 cs 114 /\ ~ tiled 100 cs 116.
 Proof. exact split_short_of_end. Qed.
 Print Assumptions C19_split_tiles_parent_short_closing_point_refuted.
+
+(* ------------------------------------------------------------------------------------------ *)
+(* sum_waveform.  Full statement: every processed peak has area = sum over channels, and its stored
+   waveform integrates to the area also after down-sampling.  The second half is false when the
+   down-sampling factor does not divide the length (T5). *)
+Definition C19_full_sum_waveform_area : Prop :=
+  forall gains recs prev_i next_i nsr dt lmax ns nch p hs buf area apc,
+    0 <= sp_len p -> 0 < ns -> Forall (fun h => 0 <= sh_ch h < Z.of_nat nch) hs ->
+    sw_scan gains recs prev_i next_i nsr dt lmax (sp_t p) (sp_len p) (sp_dt p) hs
+            (repeat 0 (Z.to_nat (sp_len p))) 0 (repeat 0 nch) = Ok (buf, area, apc) ->
+    area = zsum apc /\
+    (qsum (snd (store_downsampled (sp_len p) (sp_dt p) ns (map inject_Z buf))) == inject_Z area)%Q.
+
+(* one peak: area accumulated over the hits = sum of area_per_channel = integral of the sum
+   waveform buffer; the stored waveform integrates to the area when nothing is truncated *)
+Theorem C19_sum_waveform_area_partial : forall gains recs prev_i next_i nsr dt lmax ns nch p hs buf area apc,
+  0 <= sp_len p -> 0 < ns ->
+  Forall (fun h => 0 <= sh_ch h < Z.of_nat nch) hs ->
+  sw_scan gains recs prev_i next_i nsr dt lmax (sp_t p) (sp_len p) (sp_dt p) hs
+          (repeat 0 (Z.to_nat (sp_len p))) 0 (repeat 0 nch) = Ok (buf, area, apc) ->
+  let r := store_downsampled (sp_len p) (sp_dt p) ns (map inject_Z buf) in
+  let f := ds_factor (sp_len p) ns in
+  area = zsum apc /\ area = zsum buf /\
+  ((f <= 1 \/ (f | sp_len p)) -> (qsum (snd r) == inject_Z area)%Q).
+Proof. exact sw_peak_area. Qed.
+Print Assumptions C19_sum_waveform_area_partial.
+
+(* down-sampling stores exactly the integral of the kept prefix of the buffer *)
+Theorem C19_store_downsampled_integral : forall len dt ns buf,
+  0 <= len -> 0 < ns -> length buf = Z.to_nat len ->
+  let r := store_downsampled len dt ns buf in
+  let f := ds_factor len ns in
+  (qsum (snd r) == qsum (firstn (Z.to_nat (if f >? 1 then len / f * f else len)) buf))%Q /\
+  ((f <= 1 \/ (f | len)) -> (qsum (snd r) == qsum buf)%Q).
+Proof. exact store_downsampled_integral. Qed.
+Print Assumptions C19_store_downsampled_integral.
+
+(* the loop over all peaks: a processed prefix (each satisfying the law), then - if the hits run
+   out - one peak that only lost its area and an untouched remainder *)
+Theorem C19_sum_waveform_all_peaks : forall gains recs prev_i next_i nsr dt lmax ns nch, 0 < ns ->
+  forall ps hs out,
+    Forall (fun p => 0 <= sp_len p) ps ->
+    Forall (fun h => 0 <= sh_ch h < Z.of_nat nch) hs ->
+    sw_peaks gains recs prev_i next_i nsr dt lmax ns nch ps hs = Ok out ->
+    exists done rest, out = done ++ rest /\
+      Forall2 (sw_peak_ok ns) (firstn (length done) ps) done /\
+      (rest = [] \/ exists p pr, skipn (length done) ps = p :: pr /\
+                     rest = mkswpeak (sp_t p) (sp_len p) (sp_dt p) 0 (sp_apc p) (sp_data p) :: pr).
+Proof. exact sw_peaks_conserve. Qed.
+Print Assumptions C19_sum_waveform_all_peaks.
+
+(* T5: [1,1,1,1,7] in a 4-sample buffer -> [2,2] (half units: 4+4 = 8 against an area of 22) *)
+Theorem C19_sum_waveform_area_after_downsampling_refuted :
+  exists p', sum_waveform [1; 1] [t5_rec] [-1] [-1] 6 5 4 2 [t5_peak] [t5_hit] = Ok [p'] /\
+             sp_area p' = 22 /\ sp_area p' = zsum (sp_apc p') /\ sp_len p' = 2 /\ sp_dt p' = 2 /\
+             (qsum (sp_data p') == 8)%Q /\ ~ (qsum (sp_data p') == inject_Z (sp_area p'))%Q.
+Proof. exact sum_waveform_truncation_witness. Qed.
+Print Assumptions C19_sum_waveform_area_after_downsampling_refuted.
